@@ -94,17 +94,31 @@ impl Group {
         self.w
             .tx(|d, e| cw4_group::contract::execute(d, e, info(sender), msg))
     }
+    /// all reads go through the contract's `query` entry point (JSON in, JSON out), like a client
+    fn q<R: serde::de::DeserializeOwned>(&self, msg: cw4_group::msg::QueryMsg) -> Res<R> {
+        self.w.q(|d, e| cw4_group::contract::query(d, e, msg).and_then(|b| from_json::<R>(&b)))
+    }
     pub fn member(&self, a: &str, at: Option<u64>) -> Res<Option<u64>> {
-        self.w.q(|d, _| cw4_group::contract::query_member(d, a.to_string(), at).map(|r| r.weight))
+        match self.q::<cw4::MemberResponse>(cw4_group::msg::QueryMsg::Member { addr: a.to_string(), at_height: at }) {
+            Res::Ok(r) => Res::Ok(r.weight),
+            Res::Err(e) => Res::Err(e),
+            Res::Abort(e) => Res::Abort(e),
+        }
     }
     pub fn total(&self, at: Option<u64>) -> Res<u64> {
-        self.w.q(|d, _| cw4_group::contract::query_total_weight(d, at).map(|r| r.weight))
+        match self.q::<cw4::TotalWeightResponse>(cw4_group::msg::QueryMsg::TotalWeight { at_height: at }) {
+            Res::Ok(r) => Res::Ok(r.weight),
+            Res::Err(e) => Res::Err(e),
+            Res::Abort(e) => Res::Abort(e),
+        }
     }
     pub fn list(&self) -> Vec<(String, u64)> {
         let mut out = vec![];
         let mut cursor: Option<String> = None;
         loop {
-            let page = cw4_group::contract::query_list_members(self.w.deps(), cursor.clone(), Some(30))
+            let page = self
+                .q::<cw4::MemberListResponse>(cw4_group::msg::QueryMsg::ListMembers { start_after: cursor.clone(), limit: Some(30) })
+                .ok()
                 .map(|r| r.members)
                 .unwrap_or_default();
             if page.is_empty() {
@@ -119,10 +133,10 @@ impl Group {
         out
     }
     pub fn admin(&self) -> Option<String> {
-        cw4_group::state::ADMIN.query_admin(self.w.deps()).ok().and_then(|a| a.admin)
+        self.q::<cw_controllers::AdminResponse>(cw4_group::msg::QueryMsg::Admin {}).ok().and_then(|a| a.admin)
     }
     pub fn hooks(&self) -> Vec<String> {
-        cw4_group::state::HOOKS.query_hooks(self.w.deps()).map(|h| h.hooks).unwrap_or_default()
+        self.q::<cw_controllers::HooksResponse>(cw4_group::msg::QueryMsg::Hooks {}).ok().map(|h| h.hooks).unwrap_or_default()
     }
     /// raw storage read as another contract would do it (WasmQuery::Raw)
     pub fn raw_total(&self) -> Option<u64> {
